@@ -64,7 +64,10 @@ def run_rel(rep, pid, tier, seed, builder, weights, npairs, rule_text, stage2=No
             a, b = pairing_variant(rng, a, b)
         g = relprops.Group('g%d' % i, meta['family'], meta)
         if third:
-            c3, _, _ = gen.FAMILIES[meta['family'] if meta['family'] in ('rect', 'oct', 'lat', 'gp') else 'oct'](rng)
+            if 'third' in meta:          # the family supplies its own third operand
+                c3 = meta.pop('third')
+            else:
+                c3, _, _ = gen.FAMILIES[meta['family'] if meta['family'] in ('rect', 'oct', 'lat', 'gp') else 'oct'](rng)
             builder(rng, g, a, b, c3)
         else:
             builder(rng, g, a, b)
